@@ -134,6 +134,16 @@ class RevolvedRing(ExtrudedRing):
             revolve.copy().rotate(i * angle, self.axis, self.center_point) for i in range(n_segments)
         ]
 
+    @property
+    def grid(self):
+        # (there are no sketches and lofts in this shape, only revolves)
+        return [self.revolves]
+
+    @property
+    def core(self):
+        """A ring has no core: all operations touch the outer surface"""
+        return []
+
     def set_inner_patch(self, name: str) -> None:
         """Assign the faces of inside surface to a named patch"""
         for operation in self.operations:
